@@ -66,6 +66,14 @@ def _plan(draw, max_len):
         n = max(n, draw(st.integers(4, max(4, max_len))))
     vals = [draw(st.sampled_from(pool)) for _ in range(n)]
     groups = [draw(st.integers(0, ngroups)) for _ in range(n)]
+    if draw(st.integers(0, 24)) == 0:
+        # a long column (65 .. 5003 elements, up to 41 groups) laid out by an arithmetic pattern over the pool:
+        # beyond any size threshold a fast path might use
+        n = draw(st.sampled_from(gen.BIG_SIZES + gen.HUGE_SIZES))
+        a, b, c = draw(st.integers(1, 97)), draw(st.integers(0, 97)), draw(st.integers(1, 97))
+        ng = draw(st.sampled_from([1, 2, 3, 7, 41]))
+        vals = [pool[(i * a + (i * i // 3) * b) % len(pool)] for i in range(n)]
+        groups = [(i * c + i // 5) % ng for i in range(n)]
     if n and kind in ("f", "d", "t", "s", "td") and draw(st.integers(0, 3)) == 0:
         # one whole group missing (not necessarily the first one)
         g = draw(st.sampled_from(sorted(set(groups))))
